@@ -6,12 +6,26 @@
     * opening it as an unformatted Eclipse file terminates with arrays or with one of the
       reader's own error conditions (the loop bound of the model is never reached);
     * no accepted header leads to a zero divisor in the size arithmetic (finding F3);
-  The deck-text lexer part is imported from `Proofs/LexSafe.lean` when that family is present.
+    * (second round) the modelled lexical layer of the deck parser — `clean`, `strip_comments`,
+      `find_terminator`, `getline`, `del_after_first/last_slash`, `trim`, keyword assembly,
+      the record tokeniser, star tokens — for EVERY byte string: the loops terminate (no fuel
+      of the model is ever the reason for a result), the outcome is a value or the single
+      error outcome, and every view, index and write position the C++ forms from another one
+      (`end + 1`, `*view.end()`, `back()`, `dsti`, `quote_end + 1`, `star + 2`, `close + 1`,
+      `std::distance(record_buffer.begin(), line.end())`) lies inside the buffer it belongs to
+      (`Model/LexPtr.lean` is the pointer-level mirror in which leaving the buffer is the
+      outcome `ub`; `Proofs/LexPtr.lean`, `Proofs/LexSafe.lean`).  The lexer model is tied to
+      the code inside this check by a function-level correspondence on arbitrary bytes run
+      against the UBSan / bounds-checked build (lib/props/C20.py, stage `corr-lexer`).
   Everything past these cores (keyword handlers, EclipseState/Schedule/SummaryConfig
   construction, formatted reader) is exercised by the hardened fuzz harness
   (UBSan + bounds-checked libstdc++), not proved.
 -/
 import OpmVerif.Proofs.EclBinSafe
+import OpmVerif.Proofs.LexSafe
+import OpmVerif.Proofs.LexPtr
+import OpmVerif.Proofs.Scan
+import OpmVerif.Proofs.RawConsts
 
 namespace OpmVerif.Props.C20
 open OpmVerif.Ecl
@@ -42,6 +56,140 @@ theorem truncated_file_exact_or_error_partial (as : List Arr) (hwf : ∀ a ∈ a
     (hload : loadEntry ((encodeFile as).take k) idx[i] = .ok a) :
     as[i]? = some a :=
   truncation_exact_or_error as hwf k idx hidx i hi a hload
+
+
+/-! ## Deck text: the lexical layer, for every byte string
+
+`Bytes` is `List UInt8`; every function of `Model/Lex.lean`, `Model/Tok.lean`,
+`Model/Scan.lean`, `Model/RawKw.lean` is total (structural recursion, or fuel with a lemma
+below that the fuel is never the reason for the result) and returns a value or the single
+error outcome `none`/`.err` — there is no third outcome.  `LexPtr.R.ub` is the outcome
+"the C++ forms an iterator outside its range, calls an algorithm with `first > last`, reads
+outside the `std::string`, writes outside `dst`". -/
+
+section lexer
+open OpmVerif.Lex OpmVerif.Tok OpmVerif.LexPtr
+
+/-- `find_terminator` (comments and the terminating slash): the C++ recursion over positions
+returns within `length + 1` calls — the fuel of its literal mirror is not the reason for
+the result — and equals the one-pass state machine of the model. -/
+theorem lexer_find_terminator_terminates (l : List UInt8) :
+    stripCommentsM l = stripComments l ∧ delAfterFirstSlashM l = delAfterFirstSlash l :=
+  findTerminator_total l
+
+/-- every view the line-level functions return is a view into the view they were given. -/
+theorem lexer_views_inside (l : List UInt8) (next : UInt8) :
+    stripComments l <+: l ∧ delAfterFirstSlash l <+: l ∧ delAfterLastSlash l next <+: l ∧ trim l <:+: l :=
+  ⟨stripComments_prefix l, delAfterFirstSlash_prefix l, delAfterLastSlash_prefix l next, trim_infix l⟩
+
+/-- `loadString` (`clean(code_keywords, input + "\n")`) with the code keywords of the source
+tree as generated on this run, for both shapes of the slow loop (as it is / with the
+candidate repair of finding `C01.code_block_followed_by_code_keyword`; the translator reads
+which one the source has): the cleaned text never exceeds `dst.resize(str.size())`, and is
+empty or ends in '\n' again — the invariant every later `getline` relies on. -/
+theorem lexer_clean_fits_and_keeps_newline (retest : Bool) (text : List UInt8) :
+    (clean retest OpmVerif.Gen.RawConsts.codeKeywords (text ++ [10])).length ≤ (text ++ [10]).length ∧
+    (clean retest OpmVerif.Gen.RawConsts.codeKeywords (text ++ [10]) = [] ∨
+      EndsNL (clean retest OpmVerif.Gen.RawConsts.codeKeywords (text ++ [10]))) :=
+  have h : text ++ [10] = [] ∨ EndsNL (text ++ [10]) := Or.inr (by simp [EndsNL])
+  ⟨clean_length_le retest _ codeKeywords_ok _ h, clean_endsNL retest _ _ h⟩
+
+/-- the `while (true)` loop of the slow path of `clean` terminates: any fuel above the input
+length gives the same result (code keyword names are not empty, so every round consumes
+input — also with the re-test of the candidate repair). -/
+theorem lexer_clean_loop_terminates (retest : Bool) (f1 f2 : Nat) (input : List UInt8)
+    (h1 : input.length < f1) (h2 : input.length < f2) :
+    cleanSlow retest OpmVerif.Gen.RawConsts.codeKeywords f1 input =
+      cleanSlow retest OpmVerif.Gen.RawConsts.codeKeywords f2 input :=
+  cleanSlow_fuel retest _ codeKeywords_names f1 f2 input h1 h2
+
+/-- `fast_clean` at pointer level — `getline`'s `end + 1`, the copy through `dsti`,
+`*dsti++ = '\n'` — on any text that is empty or ends in '\n': never `ub`, result `fastClean`. -/
+theorem lexer_fast_clean_in_bounds (buf : List UInt8) (h : buf = [] ∨ EndsNL buf) :
+    fastCleanP buf (buf.length + 1) ⟨0, buf.length⟩ [] = .ok (fastClean buf) :=
+  fastCleanP_ok buf h
+
+/-- `getline` on any valid input view that is empty or ends in '\n': never `ub`; line and
+rest are valid views holding what the list-level `getline` returns, the byte behind the
+line is its '\n', and the rest is empty or ends in '\n' again. -/
+theorem lexer_getline_in_bounds (buf : List UInt8) (inp : View) (hv : inp.Valid buf)
+    (hnl : inp.bytes buf = [] ∨ EndsNL (inp.bytes buf)) :
+    (getlineP buf inp = .ok none ∧ getline (inp.bytes buf) = none) ∨
+    ∃ line rest, getlineP buf inp = .ok (some (line, rest)) ∧ line.Valid buf ∧ rest.Valid buf ∧
+      getline (inp.bytes buf) = some (line.bytes buf, rest.bytes buf) ∧
+      (rest.bytes buf = [] ∨ EndsNL (rest.bytes buf)) ∧ rd buf line.e = .ok 10 :=
+  getlineP_ok buf inp hv hnl
+
+/-- all lines of a loaded file: views inside the cleaned buffer, each followed by its '\n'
+inside the buffer, holding the lines of the list-level model. -/
+theorem lexer_lines_in_bounds (buf : List UInt8) (h : buf = [] ∨ EndsNL buf) :
+    ∃ vs, linesP buf (buf.length + 1) ⟨0, buf.length⟩ = .ok vs ∧
+      vs.map (·.bytes buf) = splitLines buf ∧
+      ∀ v ∈ vs, v.Valid buf ∧ v.e < buf.length ∧ rd buf v.e = .ok 10 :=
+  linesP_ok buf h
+
+/-- `del_after_last_slash` starts its backward search AT `view.end()`, i.e. it reads the
+byte behind the view.  For every valid view of every buffer that read is inside the
+`std::string` (its NUL terminator at worst), the loop never steps below `begin`, and the
+result is the prefix the list-level model computes from the view and that byte. -/
+theorem lexer_last_slash_byte_behind_view (buf : List UInt8) (v : View) (hv : v.Valid buf) :
+    ∃ w, dalsP buf v = .ok w ∧ w.Valid buf ∧ w.b = v.b ∧ w.e ≤ v.e ∧
+      w.bytes buf = delAfterLastSlash (v.bytes buf) ((buf[v.e]?).getD 0) :=
+  dalsP_ok buf v hv
+
+/-- in the parser the view is a line of the cleaned buffer, so the byte is the line's '\n'
+(what the keyword assembly model passes: `delAfterSlash raw line 10`). -/
+theorem lexer_last_slash_on_a_line (buf : List UInt8) (line : View) (hv : line.Valid buf)
+    (hnx : rd buf line.e = .ok 10) (hlt : line.e < buf.length) :
+    ∃ w, dalsP buf line = .ok w ∧ w.Valid buf ∧ w.bytes buf = delAfterLastSlash (line.bytes buf) 10 :=
+  dalsP_line buf line hv hnx hlt
+
+/-- `isTerminatedRecordString` calls `back()`: the record buffer it is applied to is never
+empty (a non-empty line stays non-empty under `del_after_slash`), and on a non-empty valid
+view `back()` is defined and is the model's test. -/
+theorem lexer_back_is_defined (raw : Bool) (line : List UInt8) (next : UInt8) (h : line ≠ [])
+    (buf : List UInt8) (v : View) (hv : v.Valid buf) (hne : v.bytes buf ≠ []) :
+    delAfterSlash raw line next ≠ [] ∧
+    isTerminatedRecordStringP buf v = .ok (isTerminatedRecordString (v.bytes buf)) :=
+  ⟨delAfterSlash_ne_nil raw line next h, isTerminatedRecordStringP_ok buf v hv hne⟩
+
+/-- `update_record_buffer`: the view from `record_buffer.begin()` to `line.end()` inside one
+buffer is the `extendBuf` of the keyword assembly model (record so far, '\n', skipped lines,
+new line). -/
+theorem lexer_record_buffer_view (A rb gap line C : List UInt8) (hrb : rb ≠ []) :
+    (⟨A.length, A.length + (rb ++ [10] ++ gap ++ line).length⟩ : View).bytes (A ++ (rb ++ [10] ++ gap ++ line) ++ C) =
+      OpmVerif.RawKw.extendBuf rb gap line :=
+  update_record_buffer_view A rb gap line C hrb
+
+/-- the record tokeniser `splitSingleRecordString` as of fix fb4827176, every record text:
+the loop ends within `length + 1` rounds, no iterator (`current + 1`, `quote_end`,
+`star + 1`, `star + 2`, `close + 1`) or range is invalid, every token is a non-empty view
+inside the record. -/
+theorem lexer_tokeniser_in_bounds (rec : List UInt8) :
+    ∃ toks, splitRecordP rec = .ok toks ∧ ∀ t ∈ toks, t.b < t.e ∧ t.e ≤ rec.length :=
+  splitRecordP_safe rec
+
+/-- star tokens: a repeat count the model accepts is a positive `int` (`std::stoi` range) —
+the bound on `record.push_front(value, count - 1)`. -/
+theorem lexer_star_count_range (t : List UInt8) (n : Nat) (v : List UInt8) (h : classify t = .rep n v) :
+    1 ≤ n ∧ n ≤ 2147483647 :=
+  OpmVerif.Scan.classify_rep_range h
+
+end lexer
+
+/-! Non-vacuity of the hypotheses and of `ub`: without the final '\n' `getline`/`fast_clean`
+leave their buffer; `back()` of an empty view; the tokeniser before fb4827176 on an
+unterminated quote (accepted by `even_quotes`); a buffer on which everything is defined. -/
+example : OpmVerif.LexPtr.getlineP [65, 66] ⟨0, 2⟩ = .ub ∧ OpmVerif.LexPtr.fastCleanP [65] 2 ⟨0, 1⟩ [] = .ub ∧
+    OpmVerif.LexPtr.isTerminatedRecordStringP [47] ⟨0, 0⟩ = .ub := by decide
+example : OpmVerif.LexPtr.splitP false [97, 98, 39, 99, 32, 39, 100] 8 0 [] = .ub ∧
+    OpmVerif.LexPtr.splitRecordP [97, 98, 39, 99, 32, 39, 100] = .ok [⟨0, 4⟩, ⟨5, 7⟩] := by decide
+/-- `UDQ`-style raw line `A/B /` + text: the last slash ends the record; a slash directly
+behind the view keeps the whole view. -/
+example : OpmVerif.LexPtr.dalsP [65, 47, 66, 32, 47, 120, 10] ⟨0, 6⟩ = .ok ⟨0, 5⟩ ∧
+    OpmVerif.LexPtr.dalsP [65, 47, 66, 47, 10] ⟨0, 3⟩ = .ok ⟨0, 3⟩ ∧
+    OpmVerif.LexPtr.dalsP [65, 66] ⟨0, 2⟩ = .ok ⟨0, 2⟩ := by decide
+example : OpmVerif.LexPtr.linesP [65, 32, 10, 10, 47, 10] 7 ⟨0, 6⟩ = .ok [⟨0, 2⟩, ⟨3, 3⟩, ⟨4, 5⟩] := by decide
 
 /-! Non-vacuity: the `C000` header of finding F3 is rejected by the model (as by the fixed code),
 and a plain header is accepted. -/
